@@ -429,6 +429,81 @@ var opGens = map[string]opGen{
 	},
 }
 
+func btensor(r *rand.Rand, shape []int) AbsTensor {
+	t := AbsTensor{Dt: "bool", Shape: append([]int{}, shape...), Data: make([]Elem, size(shape))}
+	for i := range t.Data {
+		t.Data[i] = Elem{Kind: "bool", B: r.Intn(2) == 0}
+	}
+	return t
+}
+
+func cmpGen(r *rand.Rand) ([]Attr, []AbsTensor, int) {
+	a, b := bpair(r)
+	return nil, []AbsTensor{rtensor(r, "f32", a, -2, 2), rtensor(r, "f32", b, -2, 2)}, 1
+}
+
+func logicGen(r *rand.Rand) ([]Attr, []AbsTensor, int) {
+	a, b := bpair(r)
+	return nil, []AbsTensor{btensor(r, a), btensor(r, b)}, 1
+}
+
+// recGen draws a recurrent cell with relu activations (exact on integers), weights in {-1, 0, 1}, optional bias, initial
+// state(s), peepholes, linear_before_reset, and a random number of declared outputs.
+func recGen(op string, gates int) opGen {
+	return func(r *rand.Rand) ([]Attr, []AbsTensor, int) {
+		seq, batch, in, hid := 1+r.Intn(3), 1+r.Intn(3), 1+r.Intn(3), 1+r.Intn(3)
+		acts := make([]string, map[string]int{"RNN": 1, "GRU": 2, "LSTM": 3}[op])
+		for i := range acts {
+			acts[i] = "relu"
+		}
+		attrs := []Attr{aI("hidden_size", hid), {"activations", "ss", rawJ(acts)}}
+		if op == "GRU" && r.Intn(2) == 0 {
+			attrs = append(attrs, aI("linear_before_reset", 1))
+		}
+		ins := []AbsTensor{rtensor(r, "f32", []int{seq, batch, in}, -2, 2), rtensor(r, "f32", []int{1, gates * hid, in}, -1, 1), rtensor(r, "f32", []int{1, gates * hid, hid}, -1, 1)}
+		opt := func(t AbsTensor) AbsTensor {
+			if r.Intn(2) == 0 {
+				return t
+			}
+			return nilT
+		}
+		ins = append(ins, opt(rtensor(r, "f32", []int{1, 2 * gates * hid}, -1, 1)), nilT, opt(rtensor(r, "f32", []int{1, batch, hid}, -2, 2)))
+		if op == "LSTM" {
+			ins = append(ins, opt(rtensor(r, "f32", []int{1, batch, hid}, -2, 2)), opt(rtensor(r, "f32", []int{1, 3 * hid}, -1, 1)))
+		}
+		for len(ins) > 3 && ins[len(ins)-1].Nil {
+			ins = ins[:len(ins)-1]
+		}
+		maxOut := 2
+		if op == "LSTM" {
+			maxOut = 3
+		}
+		return attrs, ins, 1 + r.Intn(maxOut)
+	}
+}
+
+func helperGen(r *rand.Rand) ([]Attr, []AbsTensor, int) {
+	a, b := bpair(r)
+	if r.Intn(3) == 0 { // rank 5 and longer extents than the exhaustive generator reaches
+		a = append([]int{1 + r.Intn(2)}, a...)
+	}
+	return nil, []AbsTensor{rtensor(r, "f32", a, -99, 99), rtensor(r, "f32", b, 100, 299)}, 2
+}
+
+func init() {
+	opGens["MultidirectionalBroadcast"], opGens["UnidirectionalBroadcast"] = helperGen, helperGen
+	for _, op := range []string{"Equal", "Less", "LessOrEqual", "Greater", "GreaterOrEqual"} {
+		opGens[op] = cmpGen
+	}
+	for _, op := range []string{"And", "Or", "Xor"} {
+		opGens[op] = logicGen
+	}
+	opGens["Not"] = func(r *rand.Rand) ([]Attr, []AbsTensor, int) {
+		return nil, []AbsTensor{btensor(r, rshape(r, 0, 4, 4))}, 1
+	}
+	opGens["RNN"], opGens["GRU"], opGens["LSTM"] = recGen("RNN", 1), recGen("GRU", 3), recGen("LSTM", 4)
+}
+
 func binGen(r *rand.Rand) ([]Attr, []AbsTensor, int) {
 	a, b := bpair(r)
 	return nil, []AbsTensor{rtensor(r, "f32", a, -9, 9), rtensor(r, "f32", b, -9, 9)}, 1
@@ -471,6 +546,13 @@ func evTensor(t AbsTensor, strings_ bool) interface{} {
 		shape = []int{}
 	}
 	if !strings_ {
+		if t.Dt == "bool" {
+			data := make([]bool, len(t.Data))
+			for i, e := range t.Data {
+				data[i] = e.B
+			}
+			return map[string]interface{}{"dt": t.Dt, "shape": shape, "data": data}
+		}
 		data := make([]int64, len(t.Data))
 		for i, e := range t.Data {
 			data[i] = e.I
@@ -481,6 +563,8 @@ func evTensor(t AbsTensor, strings_ bool) interface{} {
 	for i, e := range t.Data {
 		if e.Kind == "int" {
 			data[i] = strconv.FormatInt(e.I, 10)
+		} else if e.Kind == "bool" {
+			data[i] = map[bool]string{true: "TRUE", false: "FALSE"}[e.B] // TLC's ToString of a boolean
 		} else if e.Kind == "rec" && e.C == "nz" {
 			data[i] = "0" // -0 equals +0 numerically; the integer-valued semantics has one zero
 		} else {
@@ -514,7 +598,13 @@ func recordOps(rec *recorder, rng *rand.Rand, trials int, repo string) int {
 				attrs = []Attr{}
 			}
 			c := &Case{Kind: "op", Op: op, Attrs: attrs, Inputs: inputs, Nout: nout}
-			obs := execOpAPI(c)
+			var obs Observation
+			if op == "MultidirectionalBroadcast" || op == "UnidirectionalBroadcast" {
+				c.Kind = "helper"
+				obs = execHelper(c)
+			} else {
+				obs = execOpAPI(c)
+			}
 			ev := map[string]interface{}{"ev": "Op", "op": op, "attrs": attrs, "nout": nout, "kind": obs.Kind, "changed": obs.Changed != ""}
 			ins := make([]interface{}, len(inputs))
 			for k, t := range inputs {
